@@ -8,6 +8,41 @@ import warnings
 from vk.core import Result, jdump
 
 
+class CaseTimeout(BaseException):
+    """Raised by the per-case watchdog (BaseException: the checks' own `except Exception` must not swallow it)."""
+
+
+def install_case_watchdog(mod, res):
+    """Wall-clock watchdog around every `run_case` of a check module: a generated case on which the library (or the oracle)
+    needs more than CASE_TIME_LIMIT seconds (exponential compilations: 2^n unconditional variants, DNF blow-up, huge groundings)
+    is abandoned and counted as `case_watchdog_timeout` - inconclusive for that case, never a violation and never "held"."""
+    import signal
+    import threading
+
+    fn = getattr(mod, "run_case", None)
+    limit = getattr(mod, "CASE_TIME_LIMIT", 150)
+    if fn is None or not limit or threading.current_thread() is not threading.main_thread():
+        return
+
+    def on_alarm(signum, frame):
+        raise CaseTimeout()
+
+    signal.signal(signal.SIGALRM, on_alarm)
+
+    def guarded(*a, **k):
+        signal.setitimer(signal.ITIMER_REAL, limit)
+        try:
+            return fn(*a, **k)
+        except CaseTimeout:
+            res.count("case_watchdog_timeout")
+            res.count("case_watchdog_timeout:" + str(a[0])[:40] if a else "case_watchdog_timeout:?")
+            return None
+        finally:
+            signal.setitimer(signal.ITIMER_REAL, 0)
+
+    mod.run_case = guarded
+
+
 def main():
     prop, sp, op = sys.argv[1], sys.argv[2], sys.argv[3]
     warnings.simplefilter("ignore")
@@ -16,6 +51,7 @@ def main():
         spec = json.load(f)
     mod = importlib.import_module(f"vk.checks.{prop.lower()}")
     res = Result(prop)
+    install_case_watchdog(mod, res)
     try:
         mod.run_shard(spec, res)
     except Exception as e:  # the harness itself failed: inconclusive, never "held"
